@@ -53,7 +53,15 @@ pub enum COp {
     Quarantine,
     DeleteOrphan { c: usize },
     /// C11: open the directory, hold it for `hold` small operations, drop it
-    OpenHold { hold: u32, keep_clone: bool, recover: bool },
+    OpenHold {
+        hold: u32,
+        keep_clone: bool,
+        recover: bool,
+        /// num_ops_per_wal this task opens with (0 = the workload's); C19: racing first opens with
+        /// different creation-time settings
+        #[serde(default)]
+        n: u64,
+    },
 }
 
 impl COp {
@@ -71,7 +79,7 @@ impl COp {
             COp::DeleteOrphans => "delete_orphans".into(),
             COp::Quarantine => "quarantine_orphans".into(),
             COp::DeleteOrphan { c } => format!("delete_orphan(c{c})"),
-            COp::OpenHold { hold, keep_clone, recover } => format!("open(hold={hold},clone={keep_clone},recover={recover})"),
+            COp::OpenHold { hold, keep_clone, recover, n } => format!("open(hold={hold},clone={keep_clone},recover={recover},n={n})"),
         }
     }
 }
